@@ -215,6 +215,13 @@ func (c *Check) Finish(seed int, writeEvidence bool) int {
 		for k, v := range c.Extra {
 			cov[k] = v
 		}
+		if c.Assume == nil {
+			c.Assume = []string{}
+		}
+		if c.Trusted == nil {
+			c.Trusted = []string{}
+		}
+		c.Assume = append(c.Assume, "the type-checked SSA program built by go/packages + go/ssa (x/tools v0.29.0) from /repo's working tree is a faithful model of the compiled code")
 		ev := map[string]interface{}{
 			"property_id": c.Prop,
 			"tier":        c.Tier,
